@@ -59,7 +59,7 @@ func rawSuffix(url string) string {
 func runAny(c *C) {
 	evalAnyNil(c)
 	rounds := c.N(2, 12)
-	for _, mt := range allTypes {
+	for ti, mt := range allTypes {
 		if c.Failed() {
 			return
 		}
@@ -74,7 +74,12 @@ func runAny(c *C) {
 		m := mt.New()
 		fill(c, m, 0, Opts{MaxDepth: 1, FieldProb: 3}, nil)
 		content, _ := proto.MarshalOptions{Deterministic: true, AllowPartial: true}.Marshal(m.Interface())
-		for _, u := range urlsFor(c, mt) {
+		urls := urlsFor(c, mt)
+		if !c.Thorough() && ti%4 != 0 { // quick tier: the full URL list for every 4th type, a sample of 14 for the others
+			c.Rand.Shuffle(len(urls), func(i, j int) { urls[i], urls[j] = urls[j], urls[i] })
+			urls = urls[:14]
+		}
+		for _, u := range urls {
 			evalURL(c, u, mt, content)
 		}
 	}
